@@ -732,7 +732,20 @@ def mirror_spec(rng, nmirrors, catadioptric=False):
     return spec
 
 
-def c12_spec(rng, aspheres=None, finite=None, nsurf=None, lens_class=None, field_class=None):
+def _clip(spec, rng):
+    """a physical aperture away from the stop that clips the edge of the beam, differently in x and y off axis"""
+    if spec['aperture'][0] != 'EPD':
+        spec['aperture'] = ['EPD', rng.uniform(4.0, 9.0)]
+    half = spec['aperture'][1] / 2
+    cands = [i for i, sf in enumerate(spec['surfaces']) if not sf.get('is_stop')]
+    if cands:
+        i = rng.choice(cands)
+        spec['surfaces'][i]['aperture'] = [half * rng.uniform(0.7, 0.95), rng.choice([0.0, 0.0, half * 0.1])]
+    spec['clipping_aperture'] = True
+    return spec
+
+
+def c12_spec(rng, aspheres=None, finite=None, nsurf=None, lens_class=None, field_class=None, clip=None):
     """rotationally symmetric lens with at least two y fields.  Classes (drawn at random unless given):
     lens_class in LENS_CLASSES (refracting; 1 or 3 mirrors; one lens + one mirror), field_class in FIELD_CLASSES
     (field lists are sets: any order and sign).  About a third of the refracting lenses get a curved image surface
@@ -744,6 +757,8 @@ def c12_spec(rng, aspheres=None, finite=None, nsurf=None, lens_class=None, field
         field_class = rng.choices(FIELD_CLASSES, weights=[45, 15, 15, 15, 10])[0]
     if lens_class != 'refracting':
         spec = mirror_spec(rng, 3 if lens_class == 'mirror3' else 1, catadioptric=(lens_class == 'catadioptric1'))
+        if clip:
+            _clip(spec, rng)
         return _field_class(spec, rng, field_class)
     asph = (rng.random() < 0.3) if aspheres is None else aspheres
     allow = ['plane', 'standard', 'conic'] + (['even_asphere'] if asph else [])
@@ -758,6 +773,8 @@ def c12_spec(rng, aspheres=None, finite=None, nsurf=None, lens_class=None, field
     if rng.random() < 0.35:
         spec['image_radius'] = rng.uniform(30.0, 150.0) * rng.choice([-1, 1])
     spec['lens_class'] = 'refracting'
+    if clip or (clip is None and rng.random() < 0.3):
+        _clip(spec, rng)
     return _field_class(spec, rng, field_class)
 
 
